@@ -26,6 +26,7 @@ CONSTANTS
   TbVals = {}
   TickVals = {}
   Targets = {"A", "B", "C"}
+  SubTargets = {"A", "B", "C"}
   AutoVals = {TRUE, FALSE}
   SubOneshot = {FALSE}
   Senders = {"A", "B", "C"}
